@@ -22,3 +22,66 @@ func TestValidateGeneratedDocsAreValid(t *testing.T) {
 		}
 	})
 }
+
+func genCase(rt *rapid.T) (*model.Schema, *model.Doc) {
+	s := gen.Schema(rt, gen.SchemaOpts{Mutation: gen.Chance(rt, 30, "mut"), Directives: gen.Chance(rt, 30, "dirs")})
+	d, _, _ := gen.Doc(rt, s, gen.DocOpts{})
+	return s, d
+}
+
+// Every injection operator, applied to a valid base document, makes the reference report at
+// least the rules the operator declares (and nothing at all for the "legal" operators).
+func TestValidateInjectedViolations(t *testing.T) {
+	names := gen.InjectionOperatorNames()
+	applied := make([]int, len(names))
+	tried := make([]int, len(names))
+	extra := make([]map[string]int, len(names))
+	rapid.Check(t, func(rt *rapid.T) {
+		s, d := genCase(rt)
+		before := model.Print(d, nil).Text
+		for i := range names {
+			tried[i]++
+			bad, inj, ok := gen.InjectViolation(rt, s, d, i)
+			if model.Print(d, nil).Text != before {
+				rt.Fatalf("operator %s modified the base document", names[i])
+			}
+			if !ok {
+				continue
+			}
+			applied[i]++
+			v := ref.Validate(s, bad)
+			got := ref.Violated(v)
+			if inj.Rules == nil {
+				if len(got) > 0 {
+					rt.Fatalf("legal operator %s: reference reports %v\n%v\n%s", inj.Operator, got, v, model.Print(bad, nil).Text)
+				}
+				continue
+			}
+			for _, want := range inj.Rules {
+				if len(v[want]) == 0 {
+					rt.Fatalf("operator %s: reference does not report %s (reports %v)\nbase: %s\ninjected: %s", inj.Operator, want, got, before, model.Print(bad, nil).Text)
+				}
+			}
+			if extra[i] == nil {
+				extra[i] = map[string]int{}
+			}
+			for _, g := range got {
+				found := false
+				for _, want := range inj.Rules {
+					if want == g {
+						found = true
+					}
+				}
+				if !found {
+					extra[i][g]++
+				}
+			}
+		}
+	})
+	for i, n := range names {
+		t.Logf("%-55s applied %4d / %4d  extra rules: %v", n, applied[i], tried[i], extra[i])
+		if applied[i] == 0 {
+			t.Errorf("operator %s was never applicable", n)
+		}
+	}
+}
